@@ -4,12 +4,13 @@ CONSTANTS
   Ops = {"setctor", "sethook", "finalize", "get", "make", "put", "drop", "gc"}
   V = {1, 2}
   K = {"a", "b"}
-  Depth = 14
-  MaxCons = 3
+  Depth = 10
+  MaxCons = 2
   VKinds = {"slice", "bytesbuf", "bufpool"}
   AsIs = {}
 INVARIANT Inv
 PROPERTY ActionProps
+CONSTRAINT Bound
 VIEW view
 ACTION_CONSTRAINT EmitEdge
 CHECK_DEADLOCK FALSE
